@@ -19,7 +19,7 @@ subscribing a plain observer nobody else touches).
 """
 from __future__ import annotations
 
-from .. import core, subjref
+from .. import core, subjref, subj_ilv
 from ..subjref import P, US
 
 PROPERTY = "C22"
@@ -27,7 +27,7 @@ LEVEL = "model_checking"
 META = {
     "engine": "hbfs",
     "technique": "explicit-state BFS over call histories of a real ReplaySubject on a virtual-time scheduler with heap-canonical state "
-    "de-duplication, judged by a plain-list reference model (retained suffix by count and age, per-subscriber FIFO)",
+    "de-duplication, judged by a plain-list reference model (retained suffix by count and age, per-subscriber FIFO); plus stateless exhaustive exploration of thread interleavings (bounded preemptions) of subscribe() / dispose() racing the emitting thread, judged against the sequential placements on the same real class",
     "text": "every history over sub(i)/unsub(i)/next(a|b)/error/complete/dispose/tick(5|10) (+ callback-only subscribe after dispose) up to "
     "the depth bound, for every buffer_size in {None,0,1,2[,3]} x window in {None,[5,]10,1000} (ages below, equal to and above the window) and "
     "every listed configuration of plain and scripted (re-entrant) observers, is replayed on a fresh real ReplaySubject; after every event the "
@@ -91,7 +91,10 @@ def run(ctx: core.Ctx):
         "order between different subscribers' deliveries in one instant is not constrained (only order-insensitive scripts are used)",
     ]
     subjref.run_configs(ctx, cfgs, depths)
+    subj_ilv.run_part(ctx, "ReplaySubject")  # E3: subscribe() / dispose() racing the emitting thread
 
 
 def replay(case):
+    if isinstance(case, dict) and str(case.get("harness", "")).startswith("subject-race|"):
+        return subj_ilv.replay("ReplaySubject", case)
     return subjref.replay_case(case)
